@@ -1,5 +1,6 @@
 #!/usr/bin/env python3
-"""Regenerates MANIFEST.json from the per-property table below (single place to edit)."""
+"""Regenerates MANIFEST.json from tools/checks/<Cnn>.json (one file per property: category, text, design_ref, note, technique).
+TB below is the common trusted-base sentence (already expanded inside the JSON files)."""
 import json
 import os
 
@@ -9,153 +10,12 @@ TB = ("Lean 4.33 kernel; axioms propext, Classical.choice, Quot.sound only (audi
       "bv_decide/sorry); tools/translate.py for the generated tables; the hand-written model is tied to /repo by the "
       "correspondence check named in `technique`")
 
-CHECKS = {
-    "C15": dict(
-        category="proof",
-        text="Lean theorems about the model of config.py (noninterference for every interleaving at operation and at "
-             "micro-operation granularity, scope exit restores, rejected attempts change nothing, assignment refused, coercion, "
-             "thread-id reuse) + bounded-exhaustive correspondence of the model with the real _SQLLineageConfigLoader "
-             "(outputs, final state and logged dict/set mutations) + real threads under a line-level deterministic scheduler",
-        design_ref="DESIGN.md §5 C15",
-        note=TB + ". Assumed: GIL atomicity of single dict/set operations, threading.get_ident unique among live threads, `with` "
-             "exit guarantee; override values range over str/int/bool.",
-        technique="Lean 4 proof over a hand-written model + exhaustive differential correspondence (model driver vs real object)",
-    ),
-    "C17": dict(
-        category="proof",
-        text="Lean theorems about the model of the WSGI app's path handling with the repaired containment check, for every "
-             "request (unbounded path length, arbitrary characters): GET serves only below the static folder "
-             "(get_contained, from 'no .. substring => no .. segment'), POST serves only below root_path or the configured "
-             "default directory (post_contained, post_escape_refused), refusals have fixed bodies (refusal_reveals_nothing), "
-             "the operating system's own resolution ends at the lexically resolved location on a symlink-free tree "
-             "(os_resolve_lexical, disclosure_is_under_root); witnesses that the original check let '..' and prefix-sibling "
-             "paths through (D22) and listed the parent of the root (D23) + bounded-exhaustive correspondence of the model "
-             "with the real sqllineage.drawing.app on a scratch tree and a model-independent marker oracle",
-        design_ref="DESIGN.md §5 C17",
-        note=TB + ". Assumed: no symbolic links (Path.resolve() = lexical resolution, compared with pathlib on every "
-             "enumerated spelling), POSIX paths, string-valued f/d/e payload members, readable tree.",
-        technique="Lean 4 proof over a hand-written model + exhaustive differential correspondence (model driver vs real "
-                  "WSGI callable, <=4/5 segments over 9 segment kinds x relative/absolute x route x method x 2 root settings)",
-    ),
-    "C16": dict(
-        category="proof",
-        text="Lean theorems for ALL strings about the model of escape_identifier_name / Schema / Table / Path / SubQuery / "
-             "Column / SqlFluffTable.of / to_source_columns (unquoted names are case-insensitive; each quote style keeps case "
-             "and loses only the quotes; last-dot split; three-part limit; equal entities hash equally; the same spelling "
-             "gives the same column / table / schema at every creation site, incl. written-then-read) + exhaustive "
-             "correspondence of the model with the real functions on every string over a 9-character alphabet up to length "
-             "5/6, on SqlFluffTable.of and to_source_columns, eq/hash on real objects, and SQL-level spelling x position x "
-             "dialect runs judged implementation-vs-implementation",
-        design_ref="DESIGN.md §5 C16",
-        note=TB + ". The model describes the code with fixes/D20-*.patch and fixes/D21-*.patch applied; two residual "
-             "double-normalisation sites are recorded findings (D20-scalar-subquery, D20-unknown-qualifier). Assumed: ASCII "
-             "identifiers; sqlfluff's parse trees and sqlparse's remove_quotes as observed; SqlFluffTable.of is driven with "
-             "duck-typed segments in the direct part and with real trees in the SQL-level part.",
-        technique="Lean 4 proof over a hand-written model + exhaustive differential correspondence (model driver vs real "
-                  "functions) + metamorphic SQL-level check (same statement under the plain spelling, renamed)",
-    ),
-}
-
-CHECKS["C03"] = dict(
-    category="proof",
-    text="Lean theorems about the model of SQLLineageHolder._build_digraph and the role predicates: for every DROP/RENAME-free "
-         "history (any length, any tables) the table edges and the source/target/intermediate sets are exactly those the "
-         "per-statement reads/writes imply, self-loop tables are source and target but not intermediate, order and repetition "
-         "are irrelevant; DROP never fails, never changes an edge or another node, and removes the table iff its degree is zero; "
-         "single-pair RENAME never fails and removes the old name; witness that the RENAME hypothesis is needed; D10 witness. "
-         "The model is tied to the code by an EXHAUSTIVE differential of all histories of <=3 abstract statements over 3 tables "
-         "(70 643 histories) against SQLLineageHolder.of, plus two-pair renames under both pair orders and random SQL scripts "
-         "through LineageRunner with a statement tap",
-    design_ref="DESIGN.md §5 C03, Appendix C",
-    note=TB + ". Modelled, not verified: networkx DiGraph/compose/relabel_nodes/remove_edge (Model/Graph.lean re-implements the "
-         "parts used; the correspondence exercises them). RENAME 'puts y exactly in x's place' is proved at the level of "
-         "nodes/edges removal and totality, the role transfer under the PlainLineage hypothesis is checked by the exhaustive "
-         "differential and the implementation-only oracle, not yet a theorem. Known finding D10 (multi-pair RENAME).",
-    technique="Lean 4 proof (invariant over the statement fold) + exhaustive differential correspondence (model driver vs SQLLineageHolder.of)",
-)
-
-CHECKS["C01"] = dict(
-    category="proof",
-    text="Lean model of the sqlfluff extractors on a typed AST of core SQL (Model/Walk.lean: subquery discovery per clause, SQL-89 "
-         "branch, deep join crawl, CTE handling, create/insert target detection) and a denotational specification of the tables a "
-         "statement reads/writes with standard WITH scoping (Spec/Tables.lean). Theorems so far: the regenerated dispatch tables "
-         "are disjoint (dispatch order irrelevant), no-op statement types report nothing for every configuration, dispatch "
-         "totality. The exactness theorem `reads_exact` on the syntactic fragment Frag01 is work in progress; until it lands, "
-         "model = spec on Frag01 rests on the three-way differential: every generated statement (bounded-exhaustive shapes + "
-         "seeded random) is rendered by Lean and run through the real LineageRunner under 4 (quick) / all (thorough) sqlfluff "
-         "dialects and compared with model AND specification; statements outside Frag01 must match the model and fall in a "
-         "listed deviation class",
-    design_ref="DESIGN.md §5 C01, §6 D1-D5, Appendix A/B",
-    note=TB + ". partial: the step text -> sqlfluff tree (third-party grammars) is not modelled; UPDATE/MERGE/COPY/SELECT INTO are not "
-         "in the typed AST yet. D1 repaired (4da7204). Known findings D2, D2w, D3, D4, D5, D7 (table lineage lost at specific syntactic positions).",
-    technique="Lean 4 model + specification with proved dispatch lemmas; three-way differential (implementation / model / specification) "
-              "on Lean-rendered SQL",
-)
-
-CHECKS["C02"] = dict(
-    category="proof",
-    text="Lean theorems about the column layer of the model for every expression / alias map / graph: the naming rule (alias, "
-         "else own name, else expression text; source references independent of the text), scope resolution (qualified reference "
-         "resolves to the relation answering to the qualifier; unknown qualifier becomes a table, never a guess; unqualified "
-         "reference resolves to the only relation, or carries exactly the scope as candidates whatever the set iteration order), "
-         "which names a table answers to, positional wiring rule of end_of_query_cleanup, D6/D7 mechanisms. The end-to-end "
-         "statement pairs_exact is NOT proved (kept as a comment): the composition of the layers is tied to the code by the "
-         "SQL-level correspondence — every generated data-moving statement (bounded-exhaustive shapes + seeded random, expression "
-         "depth<=3, nesting<=4) run through the real LineageRunner under 3 (quick) / all (thorough) dialects, complete path sets "
-         "compared with the model's, tolerant only of the hash-order class D16",
-    design_ref="DESIGN.md §5 C02, §6 D6-D9, D25",
-    note=TB + ". partial (staged): no Lean specification of column dataflow yet; `_get_column_from_subquery` (sqlparse analyzer on the raw "
-         "subquery text) is not modelled, so statements with a subquery inside a select item are outside the column-level "
-         "correspondence; UPDATE/MERGE not in the typed AST. Known findings D6, D7, D16, D25.",
-    technique="Lean 4 proof of the column-resolution layer + differential correspondence of complete column path sets on Lean-rendered SQL",
-)
-
-CHECKS["C13"] = dict(
-    category="proof",
-    text="Lean theorems about the model of the provider-driven steps (Model/HolderOps.lean expandWildcard / replaceWildcard / "
-         "addWriteColumns, Model/Assemble.lean resolveOne, Model/InsertCols.lean = the repaired create/insert target handling): for EVERY "
-         "graph and provider each step touches only column nodes and edges incident to a column node and no tag (frame lemmas), hence "
-         "holder.read/.write/.cte/.drop, statement read/write sets and dataset-to-dataset edges are independent of the provider "
-         "(tables_independent_of_provider_ops, resolveAll_tables; statement level for statements without a query and flat "
-         "SELECT/CTAS/VIEW: tables_independent_of_provider_partial); star_exact (the target's successor list after _replace_wildcard = old "
-         "list + the source table's columns in the provider's order minus existing names and wildcards, both wildcard nodes removed); "
-         "unqualified_by_metadata / never_to_known_lacking / graph_owner_first / resolved_edges (owners chosen = exactly the candidates "
-         "whose known columns list the name); insert_positions_from_target_meta, explicit_list_wins(_over_provider), positional_wiring for "
-         "the repaired code; unknown_tables_unchanged_*; dev_D8 witness on the unrepaired model. Tied to the code by a differential "
-         "check: targeted shapes x overlap pattern x EVERY subset of the tables in scope known x provider {dict, SQLAlchemy on in-memory "
-         "sqlite} + seeded random qualified statements, against implementation-only oracles O1-O6 and the Lean model (sqlfx)",
-    design_ref="DESIGN.md §5 C13, §6 D8",
-    note=TB + ". partial: the lift of the frame lemmas through the whole mutual walk (INSERT ... SELECT with provider-named write columns, "
-         "nested queries) is not a theorem: table-level independence for those statements rests on the differential (O1 on every case); the "
-         "theorem covers every statement without a query and SELECT / CTAS / VIEW over one flat SELECT block. "
-         "SQLAlchemy reflection is a black box. Known finding D27 (wildcard vs positional naming); D8 repaired by "
-         "fixes/D8-explicit-insert-column-list-wins.patch (Model/Stmt.lean follows with patches/Stmt-D8.patch).",
-    technique="Lean 4 proof (frame invariant + normal form of add_write_column) over a hand-written model + differential correspondence "
-              "and implementation-only metamorphic / absolute oracles under both bundled providers",
-)
-
-CHECKS["C14"] = dict(
-    category="proof",
-    text="Lean: qualifyStmt (Model/Qualify.lean) writes every bare base-table name of a typed-AST statement as S.name with standard WITH "
-         "scoping; theorems: one lemma per Table creation site of the model (mkTable_default_eq_qualified, fallback_default_eq_qualified "
-         "for the repaired Table.__init__), qualified_unaffected, placeholder_uniform, spec_default_eq_qualify(+_writes) and "
-         "spec_qualified_stmt_unaffected for ALL statements (tables read/written under default S = those of the qualified statement "
-         "under no / any other default), walk_default_eq_qualify_partial + walk_flat_default_eq_qualify_partial (EQUAL holder graphs — "
-         "tables, aliases, columns, edges, order — for every statement without a query and for SELECT / INSERT..SELECT / CTAS / VIEW over "
-         "one flat SELECT block, any provider), dev_D17 witnesses. Tied to the code by an implementation-vs-implementation differential: generated scripts (qualified text "
-         "rendered by Lean) + the repository's test SQL (conservative token-level rewriter) + text cases, x S in {unset, fresh, used "
-         "qualifier} x mechanism {scoped override, SQLLINEAGE_DEFAULT_SCHEMA in a fresh subprocess[, both]}, comparing tables, all column "
-         "paths and both cytoscape exports; plus model-vs-implementation table lineage on both sides",
-    design_ref="DESIGN.md §5 C14, §6 D17",
-    note=TB + ". partial: the walk-level equality for statements with NESTED queries (derived tables, CTEs, subqueries, set operations) is "
-         "not a theorem (subquery identity is the rendered text, which qualification changes; needs graph equivalence modulo subquery "
-         "renaming through a 30-function mutual recursion for which Lean generates no equation lemmas): it is checked differentially. S ranges over plain "
-         "lower-case names; how the default reaches the call (env / scoped override) is C15. Known findings D26 (select-list subquery loses "
-         "the schema of its table), D16 (hash order of relations under an unqualified `*`, C11's subject); D17 repaired by "
-         "fixes/D17-default-schema-at-call-time.patch.",
-    technique="Lean 4 proof (mutual structural induction over the typed AST against the denotational table specification) + "
-              "implementation-vs-implementation metamorphic differential with Lean-rendered partner texts",
-)
+CHECKS = {}
+_d = os.path.join(os.path.dirname(os.path.abspath(__file__)), "checks")
+for _f in sorted(os.listdir(_d)):
+    if _f.endswith(".json"):
+        with open(os.path.join(_d, _f)) as _fh:
+            CHECKS[_f[:-5]] = json.load(_fh)
 
 NOT_YET = "machinery not built yet (build phase in progress, see DESIGN.md §9)"
 
